@@ -14,6 +14,7 @@ import (
 	"fmt"
 	"go/ast"
 	"go/types"
+	"strings"
 
 	"golang.org/x/tools/go/cfg"
 	"golang.org/x/tools/go/packages"
@@ -405,6 +406,58 @@ func (x *c22) checkStopLookupFilter(fi *FuncInfo, c *CFGInfo, key string, sites 
 		obj types.Object
 		ret *ast.ReturnStmt
 	}
+	filterEdge := func(c *CFGInfo, v types.Object) func(b *cfg.Block, i int) bool {
+		return func(b *cfg.Block, i int) bool {
+			return cgxEdgeHas(c, b, i, func(l Lit) bool {
+				if other, eq, ok := cgxCmpObj(x.info, l, v); ok && cgxObj(x.info, other) == x.stop {
+					return !eq // v != StopLookup on this edge
+				}
+				// !errors.Is(v, StopLookup)
+				if call, ok := ast.Unparen(l.Expr).(*ast.CallExpr); ok && l.Tag == nil && !l.Truth && len(call.Args) == 2 {
+					if isPkgFunc(callee(x.info, call), "errors", "", "Is") && cgxObj(x.info, call.Args[0]) == v && cgxObj(x.info, call.Args[1]) == x.stop {
+						return true
+					}
+				}
+				return false
+			})
+		}
+	}
+	isFilterEdge := func(v types.Object) func(b *cfg.Block, i int) bool { return filterEdge(c, v) }
+	// filteringHelper: h(v) hands back its parameter only over an edge on which it differs from the
+	// sentinel, and nil otherwise (`func stopToNil(err error) error`)
+	filteringHelper := func(call *ast.CallExpr) bool {
+		hf := callee(x.info, call)
+		if hf == nil || len(call.Args) != 1 {
+			return false
+		}
+		for _, h := range r.P.Funcs(strings.TrimPrefix(strings.TrimPrefix(fi.Pkg.PkgPath, modulePath), "/")) {
+			if h.Obj != hf || r.P.isTestFile(h.File) || h.Decl.Body == nil || h.Decl.Type.Params.NumFields() != 1 || len(h.Decl.Type.Params.List[0].Names) != 1 {
+				continue
+			}
+			hp := x.info.Defs[h.Decl.Type.Params.List[0].Names[0]]
+			if len(cgxAssignsTo(x.info, h.Decl.Body, hp)) > 0 {
+				return false
+			}
+			hc := r.P.CFGOf(h)
+			for _, ret := range hc.Returns() {
+				if len(ret.Results) != 1 {
+					return false
+				}
+				if cgxIsNil(x.info, ret.Results[0]) {
+					continue
+				}
+				if cgxObj(x.info, ret.Results[0]) != hp {
+					return false
+				}
+				rb, _ := hc.Locate(ret)
+				if rb == nil || hc.reachable(hc.G.Blocks[0], rb, filterEdge(hc, hp), nil) {
+					return false
+				}
+			}
+			return true
+		}
+		return false
+	}
 	var rets []retVar
 	for _, ret := range c.Returns() {
 		var e ast.Expr
@@ -428,6 +481,9 @@ func (x *c22) checkStopLookupFilter(fi *FuncInfo, c *CFGInfo, key string, sites 
 			return
 		}
 		v, _ := cgxObj(x.info, e).(*types.Var)
+		if call, ok := ast.Unparen(e).(*ast.CallExpr); ok && v == nil && filteringHelper(call) {
+			continue // the operand passed through a function that replaces the sentinel by nil
+		}
 		if v == nil {
 			if call, ok := ast.Unparen(e).(*ast.CallExpr); ok && cgxObj(x.info, call.Fun) != nil && len(sites) > 0 && cgxObj(x.info, call.Fun) == cgxObj(x.info, sites[0].call.Fun) {
 				o.Bad("the callback's result is returned without comparing it with %s", x.stop.Name())
@@ -441,22 +497,6 @@ func (x *c22) checkStopLookupFilter(fi *FuncInfo, c *CFGInfo, key string, sites 
 	if len(rets) == 0 {
 		o.Trivial("every return yields the constant nil")
 		return
-	}
-	isFilterEdge := func(v types.Object) func(b *cfg.Block, i int) bool {
-		return func(b *cfg.Block, i int) bool {
-			return cgxEdgeHas(c, b, i, func(l Lit) bool {
-				if other, eq, ok := cgxCmpObj(x.info, l, v); ok && cgxObj(x.info, other) == x.stop {
-					return !eq // v != StopLookup on this edge
-				}
-				// !errors.Is(v, StopLookup)
-				if call, ok := ast.Unparen(l.Expr).(*ast.CallExpr); ok && l.Tag == nil && !l.Truth && len(call.Args) == 2 {
-					if isPkgFunc(callee(x.info, call), "errors", "", "Is") && cgxObj(x.info, call.Args[0]) == v && cgxObj(x.info, call.Args[1]) == x.stop {
-						return true
-					}
-				}
-				return false
-			})
-		}
 	}
 	checked := 0
 	for _, rv := range rets {
@@ -599,9 +639,20 @@ func (x *c22) checkOncePerName(fi *FuncInfo, key string, s *c22call) {
 	// (ii) in a wrapper closure: behind the miss edge of a set lookup, insert on every path after
 	lc := r.P.CFG(x.info, fi.File, s.lit.Body)
 	var setObj types.Object
+	boolSet := false
 	guarded := lc.GuardedBy(s.call, func(l Lit) bool {
 		if l.Tag != nil || l.Truth {
 			return false
+		}
+		// `!seen[name]` on a map[string]bool used as a set: the miss edge of the lookup itself
+		if ix, isIx := ast.Unparen(l.Expr).(*ast.IndexExpr); isIx && cgxObj(x.info, ix.Index) == nameObj {
+			if mt, isMap := x.info.TypeOf(ix.X).Underlying().(*types.Map); isMap {
+				if b, isB := mt.Elem().Underlying().(*types.Basic); isB && b.Kind() == types.Bool {
+					setObj = cgxObj(x.info, ix.X)
+					boolSet = true
+					return setObj != nil
+				}
+			}
 		}
 		okObj := cgxObj(x.info, l.Expr)
 		if okObj == nil {
@@ -650,8 +701,17 @@ func (x *c22) checkOncePerName(fi *FuncInfo, key string, s *c22call) {
 		if !ok {
 			return false
 		}
-		for _, l := range as.Lhs {
+		for i, l := range as.Lhs {
 			if ix, ok := ast.Unparen(l).(*ast.IndexExpr); ok && cgxObj(x.info, ix.X) == setObj && cgxObj(x.info, ix.Index) == nameObj {
+				if boolSet {
+					// the set is a map to bool read by value: only storing true records the name
+					if len(as.Lhs) != len(as.Rhs) {
+						return false
+					}
+					if tv, ok := x.info.Types[as.Rhs[i]]; !ok || tv.Value == nil || tv.Value.String() != "true" {
+						return false
+					}
+				}
 				return true
 			}
 		}
